@@ -12,6 +12,10 @@ import time
 ROOT = os.path.dirname(os.path.dirname(os.path.dirname(os.path.abspath(__file__))))
 EVIDENCE_DIR = os.path.join(ROOT, "evidence")
 OUT_DIR = os.path.join(ROOT, "out")
+# development runs against a scratch tree (tools/run_seeds.py) keep their output apart from the registered evidence
+if os.environ.get("VERIF_RUN_TAG"):
+    OUT_DIR = os.path.join(ROOT, "out", "runs", os.environ["VERIF_RUN_TAG"])
+    EVIDENCE_DIR = os.path.join(OUT_DIR, "evidence")
 KNOWN = os.path.join(ROOT, "known_findings.json")
 
 LEVELS = ("exploration", "fault_enumeration", "model_checking", "proof", "translation_validation", "other")
